@@ -219,3 +219,51 @@ Proof.
   cbn [tasks queue collected expected ph lost].
   rewrite (pop_after_count _ _ _ _ _ _ _ _ _ _ _ Ht Htodo). reflexivity.
 Qed.
+
+(* ----------------------------------------------------------- ThreadManager *)
+Definition tm_init_tree : list stm :=
+  [SEv (Call "event_new"); SEv (Call "event_clear"); SEv (Call "thread_new");
+   SEv (Wr "running")].
+Definition tm_start_tree : list stm :=
+  [SEv (Call "thread_start"); SEv (Wr "running")].
+Definition tm_stop_tree : list stm :=
+  [SEv (Rd "running");
+   SIf [SEv (Call "event_set"); SEv (Call "thread_join"); SEv (Wr "running")]
+       []].
+
+Lemma tm_init_sound t st :
+  t = tm_init_tree -> run_tm false [] t st = Some (mkTM false false true false (tm_sets st) (tm_joins st) []).
+Proof. intros ->. destruct st. reflexivity. Qed.
+
+Lemma tm_start_sound t st :
+  t = tm_start_tree -> run_tm true [] t st = tm_model_start st.
+Proof.
+  intros ->. destruct st as [r e c a s j rd]. unfold tm_model_start.
+  cbn. destruct c, a; reflexivity.
+Qed.
+
+Lemma tm_stop_sound t test st :
+  t = tm_stop_tree -> (forall b, test b = b) ->
+  run_tm false (tm_stop_guards test) t st = tm_model_stop st.
+Proof.
+  intros -> Ht. destruct st as [r e c a s j rd]. unfold tm_model_stop.
+  unfold run_tm, tm_stop_tree, tm_stop_guards. cbn.
+  rewrite Ht. destruct r, a; reflexivity.
+Qed.
+
+(* stop() is idempotent: the second stop() of _run_mp's `finally` does
+   nothing; a started manager is stopped by exactly one set and one join *)
+Lemma tm_stop_twice st st1 :
+  tm_model_stop st = Some st1 -> tm_model_stop st1 = Some st1.
+Proof.
+  destruct st as [r e c a s j rd]. unfold tm_model_stop. cbn.
+  destruct r, a; intros H; inversion H; subst; reflexivity.
+Qed.
+
+Lemma tm_lifecycle st1 st2 :
+  tm_model_start tm_new = Some st1 -> tm_model_stop st1 = Some st2 ->
+  st2 = mkTM false true true false 1 1 [].
+Proof.
+  cbn. intros H1 H2. inversion H1; subst. cbn in H2. inversion H2.
+  reflexivity.
+Qed.
